@@ -1310,23 +1310,33 @@ def add_invariant_checks(cls: ClassT) -> None:
             setattr(cls, "__new__", _decorate_new_with_invariants(new_func))
         else:
             wrapper = _decorate_with_invariants(func=init_func, is_init=True)
-            setattr(cls, init_func.__name__, wrapper)
+            # Re-bind only if the function was not already decorated (e.g., in a base class).
+            # Otherwise, we would copy the inherited function into this class and thus shadow
+            # the functions of the classes that come later in the method resolution order.
+            if wrapper is not init_func:
+                setattr(cls, init_func.__name__, wrapper)
 
     for name, func in names_funcs:
         wrapper = _decorate_with_invariants(func=func, is_init=False)
-        setattr(cls, name, wrapper)
+        if wrapper is not func:
+            setattr(cls, name, wrapper)
 
     for name, prop in names_properties:
-        new_prop = property(
-            fget=_decorate_with_invariants(func=prop.fget, is_init=False)
+        fget = (
+            _decorate_with_invariants(func=prop.fget, is_init=False)
             if prop.fget
-            else None,
-            fset=_decorate_with_invariants(func=prop.fset, is_init=False)
-            if prop.fset
-            else None,
-            fdel=_decorate_with_invariants(func=prop.fdel, is_init=False)
-            if prop.fdel
-            else None,
-            doc=prop.__doc__,
+            else None
         )
-        setattr(cls, name, new_prop)
+        fset = (
+            _decorate_with_invariants(func=prop.fset, is_init=False)
+            if prop.fset
+            else None
+        )
+        fdel = (
+            _decorate_with_invariants(func=prop.fdel, is_init=False)
+            if prop.fdel
+            else None
+        )
+        if fget is not prop.fget or fset is not prop.fset or fdel is not prop.fdel:
+            new_prop = property(fget=fget, fset=fset, fdel=fdel, doc=prop.__doc__)
+            setattr(cls, name, new_prop)
